@@ -1,4 +1,5 @@
 import BddVerif.Lemmas.Sched
+import BddVerif.Lemmas.SchedTranslated
 import BddVerif.Gen.SharedState
 /-!
 # C19 — operations are pure, deterministic and safe to run concurrently on shared Bdds (PARTIAL by nature)
@@ -183,6 +184,74 @@ example : (run toySem [1, 0, 1, 0, 1] toyProgs [2, 3, 4] 0).hidden = 4 := by dec
 example : results (run toySem [1, 0, 1, 0, 1] toyProgs [2, 3, 4] 0)
     = fun i => runSeq toyF (toyProgs i) [2, 3, 4] :=
   sched_irrelevant toySem toyF toySem_transparent _ _ _ _ toy_complete
+
+/-! ## (A') the same, about the operations TRANSLATED from the current Rust source
+
+`Lemmas/SchedTranslated.lean` instantiates the model with `semT`, whose 86 operation forms (Boolean / fused / limited /
+dry-run operators with the regenerated tables, `not`, `if_then_else`, quantifiers and nested operators, select /
+restrict / pick (also random, with recorded coins), substitute, rename, counting and tests, comparators, selectors,
+`to_dnf` / `to_cnf` / `to_optimized_dnf` / `mk_dnf` / `mk_cnf`, byte and text serialisers, dot export, the
+expression parser, printer and evaluators, variable-set constructors, name lookup, `transfer_from`) are
+implemented BY the functions of `Gen/Algo.lean`, `Gen/Algo2.lean`, `Gen/Algo3.lean`, regenerated from the Rust
+text on every run. For them `Transparent` is not an assumption: the implementation IS a function
+(`B.SchedT.semTr_transparent`, by `rfl`). Hence, for every fuel, every pool (Bdds, variable sets, anything),
+every family of programs and every interleaving, the statements below are theorems about code regenerated from
+the current source. The trusted step is the translator `tools/rust2lean.py` with its shims — which is exactly where
+hidden state would have to be caught: it works from a whitelist and has no rule for statics, thread-locals,
+interior mutability, `Rc`/`Arc`, raw pointers, FFI, ambient inputs, iteration over hash containers or impure
+closures (a hard error = broken tie of the generated file; the list is in `Lemmas/SchedTranslated.lean`); a
+`&mut` becomes a returned value, an RNG a list of coins, a `Read`/`Write` a scripted device, a loop a fuel-bounded
+`for`, so every input of a translated function is visible in its type. Still assumed: translator and shim
+fidelity (checked differentially by `drv_algo*` and, where a hand model exists, by the `AlgoEq*` proofs), the
+dependencies (std, fxhash, num-bigint, a caller-supplied `rand` generator), and the hardware memory model. -/
+
+open B.SchedT in
+/-- **Every complete interleaving of translated library operations on a shared pool gives every thread
+    exactly the results of its sequential run.** -/
+theorem sched_irrelevant_translated (fuel : Nat) (sched : Schedule) (progs : Nat → Prog B.SchedT.Op)
+    (pool : List (Outcome B.SchedT.V)) (hc : Complete sched progs) :
+    results (run (semTr fuel) sched progs pool ()) = fun i => runSeq (opT fuel) (progs i) pool :=
+  sched_irrelevant (semTr fuel) (opT fuel) (semTr_transparent fuel) sched progs pool () hc
+
+open B.SchedT in
+/-- … also when the implementation keeps any hidden state `S` that calls may modify but that does not reach a
+    result, whatever its initial content -/
+theorem sched_irrelevant_translated_hidden {S : Type} (fuel : Nat)
+    (touch : B.SchedT.Op → List (Outcome B.SchedT.V) → S → S) (s0 : S) (sched : Schedule)
+    (progs : Nat → Prog B.SchedT.Op) (pool : List (Outcome B.SchedT.V)) (hc : Complete sched progs) :
+    results (run (semTrH fuel touch) sched progs pool s0) = fun i => runSeq (opT fuel) (progs i) pool :=
+  sched_irrelevant (semTrH fuel touch) (opT fuel) (semTrH_transparent fuel touch) sched progs pool s0 hc
+
+open B.SchedT in
+/-- **Determinism of the translated operations**: two complete interleavings of the same programs on the same
+    pool give identical results. -/
+theorem deterministic_translated (fuel : Nat) (sched sched' : Schedule) (progs : Nat → Prog B.SchedT.Op)
+    (pool : List (Outcome B.SchedT.V)) (hc : Complete sched progs) (hc' : Complete sched' progs) :
+    results (run (semTr fuel) sched progs pool ()) = results (run (semTr fuel) sched' progs pool ()) :=
+  deterministic (semTr fuel) (semTr fuel) (opT fuel) (semTr_transparent fuel) (semTr_transparent fuel)
+    sched sched' progs pool () () hc hc'
+
+open B.SchedT in
+/-- **No interleaving of translated operations changes the shared pool.** -/
+theorem pool_unchanged_translated (fuel : Nat) (sched : Schedule) (progs : Nat → Prog B.SchedT.Op)
+    (pool : List (Outcome B.SchedT.V)) :
+    (run (semTr fuel) sched progs pool ()).pool = pool :=
+  pool_unchanged (semTr fuel) sched progs pool ()
+
+open B.SchedT in
+/-- at any time every thread holds a prefix of its sequential results -/
+theorem prefix_at_any_time_translated (fuel : Nat) (sched : Schedule) (progs : Nat → Prog B.SchedT.Op)
+    (pool : List (Outcome B.SchedT.V)) (i : Nat) :
+    results (run (semTr fuel) sched progs pool ()) i
+      = (runSeq (opT fuel) (progs i) pool).take (min (sched.count i) (progs i).length) :=
+  prefix_at_any_time (semTr fuel) (opT fuel) (semTr_transparent fuel) sched progs pool () i
+
+/-- non-vacuity: three threads running 14 translated operations (and, ∃, count, dry run; parse+eval, optimised DNF,
+    mk_dnf, substitute, print; ite, to/from bytes, transfer, a dangling operand) over a pool of three Bdds and a
+    variable set; `Lemmas/SchedTranslated.lean` also evaluates both sides at build time (`#guard`) -/
+example : results (run (B.SchedT.semTr 10000) [2, 1, 0, 2, 1, 0, 2, 1, 0, 2, 1, 0, 2, 1] B.SchedT.demoProgs B.SchedT.demoPool ())
+    = fun i => runSeq (B.SchedT.opT 10000) (B.SchedT.demoProgs i) B.SchedT.demoPool :=
+  sched_irrelevant_translated 10000 _ _ _ B.SchedT.demo_complete
 
 /-! ## (B) the regenerated shared-state inventory -/
 
